@@ -9,6 +9,7 @@ Hand-modelled here: the None-guards and error branches, the `zip` order of `ense
 
 `LineScan.extent = ‖end − start‖` is a square root; the model takes the norm as an input (`norm`), the
 theorems hold for every non-zero value of it, the harness supplies the float norm numpy computes.
+`CustomScan` is the identity on its positions.
 Not modelled: float32 rounding of the positions (`dtype=get_dtype()`), `fractional` coordinates, `Atom` arguments,
 `match_probe`, `_sort_into_extents`, partitioning (C19).
 -/
@@ -136,5 +137,19 @@ def lineAxis (l : LineScan) : Except String (Rat × Rat × Bool) :=
   match l.sampling with
   | none => .error "assertion_error"
   | some _ => .ok (lineArgs lineAxisSampling l, lineArgs lineAxisOffset l, l.endpoint)
+
+/-! ### CustomScan -/
+
+/-- `CustomScan(positions)` (an `(n, 2)` array; a single pair is promoted to `(1, 2)` by the constructor) -/
+structure CustomScan where
+  positions : List (Rat × Rat)
+deriving Repr
+
+/-- `CustomScan.get_positions()` -/
+def customPositions (c : CustomScan) : List (Rat × Rat) := c.positions
+/-- `CustomScan.shape` : `()` for an empty scan, `(n,)` otherwise -/
+def customShape (c : CustomScan) : List Nat := if c.positions.isEmpty then [] else [c.positions.length]
+/-- `CustomScan.ensemble_axes_metadata` : no axis for an empty scan, else one `PositionsAxis` whose values are the positions -/
+def customAxisValues (c : CustomScan) : Option (List (Rat × Rat)) := if c.positions.isEmpty then none else some c.positions
 
 end AbtemVerif.Scan
